@@ -123,6 +123,14 @@ func (f *compressFilter) Do(cmd string, req *simpleRequest) FilterStatus {
 		return Continue
 	}
 
+	// A redirected request passes the filter chain again when it is sent
+	// to the next backend, its values are compressed (and its hook is
+	// registered) already.
+	if req.cpsFiltered {
+		return Continue
+	}
+	req.cpsFiltered = true
+
 	// register decompression hook if needed.
 	if _, ok := wkSkipCheckCmdsInDecps[cmd]; !ok {
 		req.RegisterHook(func(request *simpleRequest) {
